@@ -184,10 +184,10 @@ def foldEq : List Byte → List Byte → Bool
   | [], _ :: _ => false
   | _ :: _, [] => false
   | x :: xs, y :: ys =>
-    if x = y then foldEq xs ys
-    else match ys with
+    (x = y && foldEq xs ys) ||
+    (match ys with
       | l :: s :: ys' => y = CR && l = LF && s = SP && foldEq (x :: xs) ys'
-      | _ => false
+      | _ => false)
 
 def dropWs : List Byte → List Byte
   | [] => []
